@@ -491,9 +491,13 @@ func honoursMetricNameMatcher(p *Prog, fi *FuncInfo, depth int) bool {
 	return found
 }
 
-func c20Dispatch(c *Ctx) {
+func c20Dispatch(c *Ctx) { c20DispatchR(c, "C20-R4") }
+
+// c20DispatchR: the dispatch rules of checkRules under the rule id R (C20-R4; C03-R5 shares them:
+// a correctly classified rule that is never scheduled is as good as misclassified).
+func c20DispatchR(c *Ctx, R string) {
 	p := c.P
-	cr := c.MustFunc("C20-R4", "cmd/pint.checkRules")
+	cr := c.MustFunc(R, "cmd/pint.checkRules")
 	if cr == nil {
 		return
 	}
@@ -517,7 +521,7 @@ func c20Dispatch(c *Ctx) {
 		return true
 	})
 	if loop == nil {
-		c.Undecided("C20-R4", "checkRules:dispatch loop", cr.Decl.Pos(), "no function literal ranging over entries")
+		c.Undecided(R, "checkRules:dispatch loop", cr.Decl.Pos(), "no function literal ranging over entries")
 		return
 	}
 	flow := p.NewFlowLit(cr, lit)
@@ -528,17 +532,17 @@ func c20Dispatch(c *Ctx) {
 	}
 	// sends
 	sends := flow.Find(func(n ast.Node) bool { _, ok := n.(*ast.SendStmt); return ok })
-	c.Check(len(sends) == 1, "C20-R4", "checkRules:one send to jobs", loop.Pos(), "single dispatch site", itoa(len(sends))+" sends")
+	c.Check(len(sends) == 1, R, "checkRules:one send to jobs", loop.Pos(), "single dispatch site", itoa(len(sends))+" sends")
 	for _, s := range sends {
 		send := s.Inner.(*ast.SendStmt)
 		cl, ok := send.Value.(*ast.CompositeLit)
 		if !ok {
-			c.Undecided("C20-R4", "checkRules:scanJob literal", send.Pos(), "send value is not a literal")
+			c.Undecided(R, "checkRules:scanJob literal", send.Pos(), "send value is not a literal")
 			continue
 		}
 		allE, ent, chkF := litField(cl, "allEntries"), litField(cl, "entry"), litField(cl, "check")
-		c.Check(allE != nil && objOf(info, allE) == entries, "C20-R4", "checkRules:job carries the full entry list", cl.Pos(), "allEntries: entries", "scan jobs no longer carry the full entry list (dependants cannot be found)")
-		c.Check(ent != nil && objOf(info, ent) == entryObj, "C20-R4", "checkRules:job carries the ranged entry", cl.Pos(), "entry: entry", "scan job entry is not the ranged entry")
+		c.Check(allE != nil && objOf(info, allE) == entries, R, "checkRules:job carries the full entry list", cl.Pos(), "allEntries: entries", "scan jobs no longer carry the full entry list (dependants cannot be found)")
+		c.Check(ent != nil && objOf(info, ent) == entryObj, R, "checkRules:job carries the ranged entry", cl.Pos(), "entry: entry", "scan job entry is not the ranged entry")
 		// check comes from ranging GetChecksForEntry(ctx, gen, entry)
 		okChk := false
 		if chkF != nil {
@@ -579,7 +583,7 @@ func c20Dispatch(c *Ctx) {
 				}
 			}
 		}
-		c.Check(okChk, "C20-R4", "checkRules:every check of GetChecksForEntry(entry) is sent", cl.Pos(), "unconditional send per check", "a check returned by GetChecksForEntry can be skipped, or the list is not computed for the ranged entry")
+		c.Check(okChk, R, "checkRules:every check of GetChecksForEntry(entry) is sent", cl.Pos(), "unconditional send per check", "a check returned by GetChecksForEntry can be skipped, or the list is not computed for the ranged entry")
 	}
 	// skips: every continue directly in the entries loop is implied by State == Removed
 	pm := parentMap(lit.Body)
@@ -620,6 +624,9 @@ func c20Dispatch(c *Ctx) {
 					if be, ok := e.(*ast.BinaryExpr); ok && be.Op == token.LOR {
 						return allErr(be.X) && allErr(be.Y)
 					}
+					if be, ok := e.(*ast.BinaryExpr); ok && be.Op == token.LAND {
+						return allErr(be.X) || allErr(be.Y)
+					}
 					x, isNil, ok := nilAtom(info, Atom{E: e, Truth: true})
 					return ok && !isNil && (fieldSel(info, x, "internal/discovery.Entry", "PathError") || fieldSel(info, x, "internal/parser.ParseError", "Err"))
 				}
@@ -628,13 +635,56 @@ func c20Dispatch(c *Ctx) {
 				}
 			}
 		}
-		c.Check(removed && hasErr, "C20-R4", "checkRules:skip only removed entries with errors", b.Pos(), "guarded by State==Removed and an error", "an entry can be skipped without being both removed and erroneous")
+		if !(removed && hasErr) {
+			// `case A && R, B && R:` — decide every alternative of the innermost case list on its own
+			for cur := pm[ast.Node(b)]; cur != nil && cur != ast.Node(loop); cur = pm[cur] {
+				cc, isCase := cur.(*ast.CaseClause)
+				if !isCase || len(cc.List) < 2 {
+					continue
+				}
+				var alts []ast.Expr
+				var split func(e ast.Expr)
+				split = func(e ast.Expr) {
+					if be, ok := ast.Unparen(e).(*ast.BinaryExpr); ok && be.Op == token.LOR {
+						split(be.X)
+						split(be.Y)
+						return
+					}
+					alts = append(alts, e)
+				}
+				for _, e := range cc.List {
+					split(e)
+				}
+				all := len(alts) > 0
+				for _, alt := range alts {
+					r, e := removed, hasErr
+					for _, at := range implied(alt, nil, true) {
+						if be, ok := ast.Unparen(at.E).(*ast.BinaryExpr); ok && at.Truth && be.Op == token.EQL && fieldSel(info, be.X, "internal/discovery.Entry", "State") {
+							if k := constObj(info, be.Y); k != nil && k.Name() == "Removed" {
+								r = true
+							}
+						}
+						if x, isNil, ok := nilAtom(info, at); ok && !isNil && (fieldSel(info, x, "internal/discovery.Entry", "PathError") || fieldSel(info, x, "internal/parser.ParseError", "Err")) {
+							e = true
+						}
+					}
+					if !r || !e {
+						all = false
+					}
+				}
+				if all {
+					removed, hasErr = true, true
+				}
+				break
+			}
+		}
+		c.Check(removed && hasErr, R, "checkRules:skip only removed entries with errors", b.Pos(), "guarded by State==Removed and an error", "an entry can be skipped without being both removed and erroneous")
 		return true
 	})
-	c.Check(nSkips <= 2, "C20-R4", "checkRules:at most the two documented skips", loop.Pos(), itoa(nSkips)+" skip(s)", itoa(nSkips)+" skip sites in the dispatch loop")
+	c.Check(nSkips <= 2, R, "checkRules:at most the two documented skips", loop.Pos(), itoa(nSkips)+" skip(s)", itoa(nSkips)+" skip sites in the dispatch loop")
 
 	// scanWorker forwards every problem
-	if sw := c.MustFunc("C20-R4", "cmd/pint.scanWorker"); sw != nil {
+	if sw := c.MustFunc(R, "cmd/pint.scanWorker"); sw != nil {
 		winfo := sw.Pkg.TypesInfo
 		var probLoop *ast.RangeStmt
 		var probs types.Object
@@ -644,7 +694,7 @@ func c20Dispatch(c *Ctx) {
 					if sel, ok := call.Fun.(*ast.SelectorExpr); ok && sel.Sel.Name == "Check" && len(call.Args) == 3 {
 						probs = objOf(winfo, as.Lhs[0])
 						okArgs := fieldSel(winfo, call.Args[1], "cmd/pint.scanJob", "entry") && fieldSel(winfo, call.Args[2], "cmd/pint.scanJob", "allEntries")
-						c.Check(okArgs, "C20-R4", "scanWorker:Check(ctx, job.entry, job.allEntries)", call.Pos(), "arguments from the job", "Check is not called with the job's entry and full entry list")
+						c.Check(okArgs, R, "scanWorker:Check(ctx, job.entry, job.allEntries)", call.Pos(), "arguments from the job", "Check is not called with the job's entry and full entry list")
 					}
 				}
 			}
@@ -666,7 +716,7 @@ func c20Dispatch(c *Ctx) {
 				}
 			}
 		}
-		c.Check(ok, "C20-R4", "scanWorker:every problem is forwarded", sw.Decl.Pos(), "unconditional send per problem", "a problem returned by a check can be dropped before reaching the summary")
+		c.Check(ok, R, "scanWorker:every problem is forwarded", sw.Decl.Pos(), "unconditional send per problem", "a problem returned by a check can be dropped before reaching the summary")
 	}
 }
 
@@ -844,20 +894,40 @@ func c20EverySelectorReturned(c *Ctx, R string) {
 		return
 	}
 	info := fi.Pkg.TypesInfo
-	pm := parentMap(fi.Decl.Body)
-	var loop *ast.RangeStmt
-	ast.Inspect(fi.Decl.Body, func(nd ast.Node) bool {
-		if rs, ok := nd.(*ast.RangeStmt); ok && loop == nil && fieldSel(info, rs.X, "internal/parser.PromQLNode", "Children") {
-			loop = rs
-		}
-		return true
-	})
+	entry := fi
+	findLoop := func(f *FuncInfo) *ast.RangeStmt {
+		var l *ast.RangeStmt
+		ast.Inspect(f.Decl.Body, func(nd ast.Node) bool {
+			if rs, ok := nd.(*ast.RangeStmt); ok && l == nil && fieldSel(info, rs.X, "internal/parser.PromQLNode", "Children") {
+				l = rs
+			}
+			return true
+		})
+		return l
+	}
+	loop := findLoop(fi)
+	if loop == nil {
+		// the walk may live in a (recursive) helper that collects into an accumulator
+		ast.Inspect(entry.Decl.Body, func(nd ast.Node) bool {
+			if call, ok := nd.(*ast.CallExpr); ok && loop == nil {
+				if callee := c.P.FuncOf(Callee(info, call)); callee != nil && callee.Pkg == entry.Pkg && callee.Decl.Body != nil {
+					if l := findLoop(callee); l != nil {
+						fi, loop = callee, l
+					}
+				}
+			}
+			return true
+		})
+	}
 	if loop == nil {
 		c.Bad(R, "HasVectorSelector:every child is searched", fi.Decl.Pos(), "no loop over node.Children")
 		return
 	}
-	why := loopReachesCall(info, pm, loop.Body, "the recursive search", func(cl *ast.CallExpr) bool { return Callee(info, cl) == fi.Obj })
-	whole := false
+	pm := parentMap(fi.Decl.Body)
+	why := loopReachesCall(info, pm, loop.Body, "the recursive search", func(cl *ast.CallExpr) bool {
+		return Callee(info, cl) == fi.Obj || Callee(info, cl) == entry.Obj
+	})
+	whole := fi.Obj.Type().(*types.Signature).Results().Len() == 0 // an accumulator walk appends nothing on the way up
 	ast.Inspect(loop.Body, func(nd ast.Node) bool {
 		if call, ok := nd.(*ast.CallExpr); ok && exprStr(call.Fun) == "append" && call.Ellipsis.IsValid() && len(call.Args) == 2 {
 			if rc, isCall := ast.Unparen(call.Args[1]).(*ast.CallExpr); isCall && Callee(info, rc) == fi.Obj {
